@@ -11,7 +11,8 @@ RECURSIVE SeqsUpTo(_)
 SeqsUpTo(n) == IF n = 0 THEN {<<>>} ELSE LET S == SeqsUpTo(n-1) IN S \cup {Append(s, a) : s \in {t \in S : Len(t) = n-1}, a \in Alphabet}
 Min(a,b) == IF a < b THEN a ELSE b
 VARIABLES signed, actual,     \* signed content of the old file; what is really on disk
-          mode,               \* <<-1,0>> (copy until EOF) | <<i, n>> (block range i, span n)
+          mode,               \* <<-1,0>> (copy until EOF) | <<i, n>> (block range i, span n) | <<-2, j>> (ONE cache chunk: Seek to
+                              \* j*C, ReadFull of C units - how bsdiff's lrufile reads the old file: it may enter a block in its middle)
           off, cache,         \* reader offset; cache: block index -> "ok" | "bad" | "eof"
           remaining,          \* LimitReader budget (only for ranges)
           outp, result        \* bytes delivered to the bowl; "run" | "ok" | "error"
@@ -29,14 +30,15 @@ Verdict(i) == LET want == BlockSize(i)
                   got == SubSeq(actual, start + 1, Min(start + want, Len(actual)))
               IN IF ~Repaired /\ want > 0 /\ start >= Len(actual) THEN "eof"          \* os.File.Read at/after EOF with a non-empty buffer
                  ELSE IF HasHash(i) /\ got = SignedBlock(i) THEN "ok" ELSE "bad"
-OpSize == IF mode[1] = -1 THEN 0
+OpSize == IF mode[1] = -1 THEN 0 ELSE IF mode[1] = -2 THEN C
           ELSE LET last == mode[1] + mode[2] - 1 IN (mode[2] - 1) * BS + (IF BS * (last + 1) > S THEN S % BS ELSE BS)
+StartOff == IF mode[1] = -1 THEN 0 ELSE IF mode[1] = -2 THEN mode[2] * C ELSE mode[1] * BS
 Damaged == actual # signed
 Init == /\ signed \in SeqsUpTo(MaxLen) /\ actual \in SeqsUpTo(MaxLen + 1)
-        /\ mode \in {<<-1, 0>>} \cup {<<i, n>> : i \in 0..(NumBlocks(S) - 1), n \in 1..NumBlocks(S)}
-        /\ (mode[1] # -1 => mode[1] + mode[2] <= NumBlocks(S))
+        /\ mode \in {<<-1, 0>>} \cup {<<i, n>> : i \in 0..(NumBlocks(S) - 1), n \in 1..NumBlocks(S)} \cup {<<-2, j>> : j \in 0..((S + C - 1) \div C - 1)}
+        /\ (mode[1] >= 0 => mode[1] + mode[2] <= NumBlocks(S))
         /\ (mode[1] = -1 => S > 0)                      \* empty files are never transposed
-        /\ off = (IF mode[1] = -1 THEN 0 ELSE mode[1] * BS) /\ cache = <<>>
+        /\ off = StartOff /\ cache = <<>>
         /\ remaining = OpSize /\ outp = <<>> /\ result = "run"
 CacheGet(i) == IF \E k \in 1..Len(cache) : cache[k][1] = i THEN (CHOOSE k \in 1..Len(cache) : cache[k][1] = i) ELSE 0
 \* one Read(p) with len(p) = n as seen by the consumer
@@ -61,7 +63,7 @@ Terminating == result # "run" /\ UNCHANGED vars
 Next == Read \/ Terminating
 Spec == Init /\ [][Next]_vars
 (* ---- C09 ---- *)
-Expected == IF mode[1] = -1 THEN signed ELSE SubSeq(signed, mode[1]*BS + 1, Min((mode[1] + mode[2])*BS, S))
+Expected == IF mode[1] = -1 THEN signed ELSE IF mode[1] = -2 THEN SubSeq(signed, mode[2]*C + 1, Min((mode[2] + 1)*C, S)) ELSE SubSeq(signed, mode[1]*BS + 1, Min((mode[1] + mode[2])*BS, S))
 NeverSilentlyWrong == result = "ok" => outp = Expected
 UndamagedAccepted == (~Damaged) => result # "error"
 =============================================================================
